@@ -20,7 +20,8 @@ RULE = ("first-contact histories (for every command/test of the language, the pr
         "valid / invalid / truncated mid-construct / with differing requires (incl. regex, relational), FiltersSet operations incl. "
         "conditions with extension-bound match types; oracle: each parse observation (verdict, error, error_pos, tree, "
         "serialisation, exception) equals the observation for that script alone in a pristine forked interpreter image, and each "
-        "FiltersSet's observations equal those of its own sub-history run alone in the pristine image. Non-trivial = a step preceded "
+        "FiltersSet's observations equal those of its own sub-history run alone in the pristine image; every result tree obtained earlier in the "
+        "history still serialises to the same text after each later parse. Non-trivial = a step preceded "
         "by a step that loaded an extension, failed or raised; distinct by history.")
 
 FIXED_SCRIPTS = [
@@ -107,10 +108,14 @@ def ensure_custom():
         C.add_commands(cls)
 
 
+_LAST_RESULT = [None]
+
+
 def observe_parse(script, parser=None, custom=False):
     if custom:
         ensure_custom()
     o = impl.parse_outcome(script, parser=parser)
+    _LAST_RESULT[0] = o.result if o.verdict is True else None
     obs = {"verdict": o.verdict, "exc": o.exc, "error": o.error, "error_pos": o.error_pos, "tree": None, "text": None}
     if o.verdict is True:
         try:
@@ -167,11 +172,28 @@ def run_history(steps, pristine):
     fails = []
     info = {"nontrivial": False}
     disturbed = False
+    held = []
     for i, stp in enumerate(steps):
         k = stp["kind"]
         if k in ("parse-reused", "parse-fresh"):
             script = stp["script"]
             got = observe_parse(script, longlived if k == "parse-reused" else None, custom=stp.get("custom", False))
+            # results the caller still holds must not change when the same or another Parser parses again
+            changed = None
+            for hi, hres, htext, htree in held:
+                try:
+                    now_text, now_tree = impl.render(hres), impl.forest_of(hres)
+                except Exception as e:  # noqa: BLE001
+                    now_text, now_tree = "render raises " + impl.exc_bucket(e), None
+                if now_text != htext or now_tree != htree:
+                    changed = (hi, htext, now_text)
+                    break
+            if changed is not None:
+                fails.append(("earlier-result-changed-by-a-later-parse|%s" % k,
+                              {"steps": steps[: i + 1], "result_of_step": changed[0], "serialisation_then": changed[1], "serialisation_now": changed[2]}))
+                break
+            if _LAST_RESULT[0] is not None and got.get("text") is not None and not isinstance(got.get("tree"), str):
+                held.append((i, _LAST_RESULT[0], got["text"], got["tree"]))
             exp = pristine.query(("parse", script, stp.get("custom", False)))
             if disturbed:
                 info["nontrivial"] = True
